@@ -50,6 +50,11 @@ func (s *rrSegFetcher) remove(state *ConsumeState) {
 	for i, stream := range s.streams {
 		if stream == state {
 			s.streams = append(s.streams[:i], s.streams[i+1:]...)
+			// keep the round-robin cursor on the stream it pointed at,
+			// so that next() does not skip the successor of the removed one
+			if i <= s.rrIndex {
+				s.rrIndex--
+			}
 			return
 		}
 	}
@@ -78,19 +83,17 @@ func (s *rrSegFetcher) doCheck() {
 		return
 	}
 
-	// we have a lock, so this has to break at some point
+	// visit every stream at most once; this must not depend on meeting a
+	// particular stream again, since streams are removed along the way
 	var state *ConsumeState = nil
-	var first *ConsumeState = nil
-	for {
+	for remaining := len(s.streams); ; remaining-- {
+		if remaining <= 0 {
+			return // we've gone full circle
+		}
+
 		state = s.next()
 		if state == nil {
 			return // nothing to do here
-		}
-
-		if first == nil {
-			first = state
-		} else if state == first {
-			return // we've gone full circle
 		}
 
 		if state.complete {
